@@ -4,7 +4,9 @@ from vlib import dtwrap
 ID = "C19"
 LEAN_MODULES = ["LhasaV.Props.C19"]
 VH_FEATURES = []
-THEOREMS = {"no_filter_selects_all": "full", "listing_shape": "full: head ++ rows ++ tail", "row_independent": "full", "totals_exact": "full (true sums below 2^32; mod 2^32 beyond)",
+THEOREMS = {"listing_of_archive": "full, on bytes: walking archiveWith pk es yields exactly the headers of es; the listing is head + one row group per SELECTED entry + totals of the selected entries, every mode/quiet/clock",
+            "total_line": "full: lha l ends with ` Total N files <sum of sizes> ...`, N = number of selected entries",
+            "no_filter_selects_all": "full", "listing_shape": "full: head ++ rows ++ tail", "row_independent": "full", "totals_exact": "full (true sums below 2^32; mod 2^32 beyond)",
             "row_lines": "full", "timestamp_recent": "full", "timestamp_old": "full: exact six-month boundary", "selection_spec": "full: wildcard selection = GlobSpec"}
 TRUSTED = ["LhasaV.Model.ListOut.render IS the reference layout (columns, widths, footers transcribed from src/list.c; binary32 ratio arithmetic "
            "and glibc %5.1f rounding modelled with exact integers; gmtime by civil-from-days); validated byte for byte against the real tool",
